@@ -1768,3 +1768,18 @@ def call_builtin_method(it, self_, k, name, args, kwargs):  # noqa: F811
     if isinstance(self_, SObj) and self_.cls is struct.Struct:
         return model_struct_method(it, self_, name, args, kwargs)
     return _orig_call_builtin_method(it, self_, k, name, args, kwargs)
+
+
+# ---------------------------------------------------------------------------------------------
+# extension modules: pyvc/libx_*.py register further trusted library contracts with @function / @method / CLASS_MODELS
+def _load_extensions():
+    import glob
+    import importlib
+    import os
+
+    here = os.path.dirname(os.path.abspath(__file__))
+    for f in sorted(glob.glob(os.path.join(here, "libx_*.py"))):
+        importlib.import_module("pyvc." + os.path.basename(f)[:-3])
+
+
+_load_extensions()
